@@ -1,0 +1,11 @@
+//go:build !verif
+// +build !verif
+
+package log
+
+// Verification hooks (see verif_on.go). With the "verif" build tag
+// off, every hook is an empty function that inlines to nothing.
+
+func verifPoint(dir, name string)           {}
+func verifSegPoint(s *segment, name string) {}
+func verifDurable(s *segment)               {}
